@@ -89,6 +89,8 @@ def build_retry(r):
               backoff_max=float(Fraction(r.get("backoff_max", 120))))
     if "redirect" in r:
         kw["redirect"] = r["redirect"]
+    if "raise_on_redirect" in r:
+        kw["raise_on_redirect"] = r["raise_on_redirect"]
     al = r.get("allowed", "default")
     if al != "default":
         kw["allowed_methods"] = al if al is None else frozenset(al)
